@@ -33,6 +33,10 @@ CHECKS = {
    text="(A, TSan build) 2-16 simulated caller threads execute generated operations on shared objects through the documented thread-safe surface (shared SpaceInformation isValid/checkMotion, shared GNAT queries with a non-empty removal cache, RNG and StateSpace construction, ProblemDefinition add/get solutions, logging, terminate vs eval) in a seeded serial order; the scheduler's futex hand-off is compiled outside TSan, so TSan reports exactly the conflicting accesses the library itself does not order, deterministically; functional results (motion counters == calls, queries == brute force, no lost solution, distinct RNG seeds / space names) are compared with the sequential answers. (B, ASan build) the threaded planners pRRT, pSBL, CForest, PRM, PRM*, SPARS, SPARStwo, AnytimePathShortening run as real threads under the seeded scheduler and simulated clock (interleaving chosen at every mutex operation, validity call, sleep, thread start/exit; optional starvation, external terminate() from another simulated thread, lazily produced goals), judged by the C01 path/status oracle, deadlock detection, ASan/UBSan.",
    note="Trusted: the scheduler and interposers; TSan's finite shadow history (op sequences kept <= 400). Preemption happens only at yield points, so a lost update inside a plain ++ cannot be executed here; it is detected by TSan's happens-before analysis in part A. Races inside a planner's private state are not in the statement and not judged (part B runs without TSan).",
    technique="deterministic simulation: seeded serialising scheduler over real threads (link-time interposed pthread/clock/sleep), TSan as race oracle with invisible hand-off, path/status oracles, shrinking + replay"),
+ "C09": dict(engine="iosim", cat="fault_enumeration", ref="DESIGN.md 4/C09",
+   text="Fault enumeration on the stream seam: generated state sets and planner-data graphs (geometric, and with controls and durations) over generated nested state spaces (R^n, SO(2), SO(3), SE(2), SE(3), time, discrete, weighted compounds up to depth 3) are stored through a simulated ostream and loaded through a simulated istream. Fault-free: the loaded set / graph must equal the original element by element (equalStates and bitwise serialisation, tags, start/goal marks, edge weights, controls, durations). Faulted: truncation at EVERY byte offset of every generated archive (enumerated), short reads of 1/2/7 bytes per refill (must be invisible), disk full on the write side at sampled offsets, overwritten archive marker, loading into a space with a different signature: the load must be reported (false / WARN-ERROR message) and what the object then holds must be an exact prefix of the original; no exception may escape; ASan/UBSan clean.",
+   note="Trusted: the harness streambufs and comparison code. 'Reported' for StateStorage (void load) means a WARN/ERROR log message. Leaks on the rejected path are outside the statement (LSan off). In-memory copy/clone/serialize/reals/partial-copy round trips are a rider on the simulated state stream (pure functions). A streambuf that throws is not among the corruptions the statement lists and is not injected.",
+   technique="deterministic simulation: enumeration of the truncation offset per archive + sampled write-side and substitution faults on simulated streams, reference comparison, shrinking + replay"),
  "C10": dict(engine="dssim", cat="exploration", ref="DESIGN.md 4/C10",
    text="Seeded search over op histories (add/add(vector)/remove/clear/nearest/nearestK/nearestR/list) on the real GNAT, GNAT-no-thread-safety, linear and sqrt-approx structures with swarm-chosen tree parameters, exact-tie metrics and simulator-owned pivot draws (hook H1), refined op by op against a brute-force reference model, under ASan/UBSan. Sampling, not enumeration: a clean run is evidence.",
    note="Trusted: the harness's metric functions and brute-force model (~60 lines). Assumes a single caller thread (concurrency is C19).",
@@ -77,6 +81,8 @@ def main():
              kind_free_text="termination-condition histories under the seeded scheduler and simulated clock vs a reference model"),
         dict(name="concsim", path="engines/concsim.cpp", serves_properties=["C19"],
              kind_free_text="thread-safe surface under a seeded serial order in a TSan build (hand-off invisible to TSan)"),
+        dict(name="iosim", path="engines/iosim.cpp", serves_properties=["C09"],
+             kind_free_text="store/load of state sets and planner data through simulated streams with enumerated truncation and sampled write/substitution faults"),
         dict(name="dssim", path="engines/dssim.cpp", serves_properties=["C10", "C11", "C12", "C13"],
              kind_free_text="in-process seeded op histories on the real data structures vs executable reference models"),
     ]
